@@ -815,7 +815,7 @@ theorem bw_hash_map (ha : ValsWF n args) : BResWF n (body "hash-map" args) := by
   · simp
   · simp
   · exact newHashMap_wf _ ha
-theorem bw_hash_set (ha : ValsWF n args) : BResWF n (body "hash-set" args) := by
+theorem bw_hash_set (_ha : ValsWF n args) : BResWF n (body "hash-set" args) := by
   rw [EvalErase.bodyEq_hash_set]; bw_fin
 theorem bw_set (h : checkSig (.fixed [.any]) args = none) (ha : ValsWF n args) : BResWF n (body "set" args) := by
   obtain ⟨a, rfl⟩ := EvalErase.shape_1 h
@@ -1061,9 +1061,9 @@ theorem bw_keyword (h : checkSig (.fixed [.str]) args = none) (ha : ValsWF n arg
   obtain ⟨a, rfl⟩ := shape_1s h
   simp only [valsWF_cons, valsWF_nil, and_true] at ha
   rw [EvalErase.bodyEq_keyword]; bw_fin
-theorem bw_str (ha : ValsWF n args) : BResWF n (body "str" args) := by
+theorem bw_str (_ha : ValsWF n args) : BResWF n (body "str" args) := by
   rw [EvalErase.bodyEq_str]; bw_fin
-theorem bw_pr_str (ha : ValsWF n args) : BResWF n (body "pr-str" args) := by
+theorem bw_pr_str (_ha : ValsWF n args) : BResWF n (body "pr-str" args) := by
   rw [EvalErase.bodyEq_pr_str]; bw_fin
 theorem bw_typeQ (h : checkSig (.fixed [.any]) args = none) (ha : ValsWF n args) : BResWF n (body "type?" args) := by
   obtain ⟨a, rfl⟩ := EvalErase.shape_1 h
@@ -1232,6 +1232,1005 @@ theorem call_wf {name : String} {r : BRes} (ha : ValsWF n args) (h : Core.call n
     · rename_i hc; cases h; exact body_wf hs hc ha
 end bw
 end core
+
+set_option linter.unnecessarySimpa false
+/-! ### the invariant of the evaluator block -/
+
+/-- postcondition of a run from `st` to `s` with result `r` -/
+def Post (st : State) (r : Res Val) (s : State) : Prop :=
+  StateWF s ∧ st.scopes.size ≤ s.scopes.size ∧ ResWF s.scopes.size r
+def PostL (st : State) (r : Res (List Val)) (s : State) : Prop :=
+  StateWF s ∧ st.scopes.size ≤ s.scopes.size ∧ ResLWF s.scopes.size r
+def PostM (st : State) (r : Res (List (String × Val))) (s : State) : Prop :=
+  StateWF s ∧ st.scopes.size ≤ s.scopes.size ∧ ResMWF s.scopes.size r
+
+/-- the induction predicate: at fuel `F` all 13 functions keep the store well-formed -/
+structure Inv (F : Nat) : Prop where
+  eval : ∀ {st env ast d r s}, StateWF st → env < st.scopes.size → ValWF st.scopes.size ast →
+    eval F st env ast d = (r, s) → Post st r s
+  evalLoop : ∀ {st env ast d r s}, StateWF st → env < st.scopes.size → ValWF st.scopes.size ast →
+    evalLoop F st env ast d = (r, s) → Post st r s
+  evalAst : ∀ {st env ast d r s}, StateWF st → env < st.scopes.size → ValWF st.scopes.size ast →
+    evalAst F st env ast d = (r, s) → Post st r s
+  evalList : ∀ {st env xs d r s}, StateWF st → env < st.scopes.size → ValsWF st.scopes.size xs →
+    evalList F st env xs d = (r, s) → PostL st r s
+  evalMap : ∀ {st env xs d r s}, StateWF st → env < st.scopes.size → KVsWF st.scopes.size xs →
+    evalMap F st env xs d = (r, s) → PostM st r s
+  doForms : ∀ {st env lst fr kl d r s}, StateWF st → env < st.scopes.size → ValsWF st.scopes.size lst →
+    doForms F st env lst fr kl d = (r, s) → Post st r s
+  letBinds : ∀ {st env bs a1 d r s}, StateWF st → env < st.scopes.size → ValsWF st.scopes.size bs →
+    letBinds F st env bs a1 d = (r, s) → Post st r s
+  macroexpand : ∀ {st env ast d r s}, StateWF st → env < st.scopes.size → ValWF st.scopes.size ast →
+    macroexpand F st env ast d = (r, s) → Post st r s
+  apply : ∀ {st f args d r s}, StateWF st → ValWF st.scopes.size f → ValsWF st.scopes.size args →
+    apply F st f args d = (r, s) → Post st r s
+  mapLoop : ∀ {st f xs d r s}, StateWF st → ValWF st.scopes.size f → ValsWF st.scopes.size xs →
+    mapLoop F st f xs d = (r, s) → PostL st r s
+  updateIn : ∀ {st v p f d r s}, StateWF st → ValWF st.scopes.size v → ValsWF st.scopes.size p →
+    ValWF st.scopes.size f → updateIn F st v p f d = (r, s) → Post st r s
+  update1 : ∀ {st v i f d r s}, StateWF st → ValWF st.scopes.size v → ValWF st.scopes.size i →
+    ValWF st.scopes.size f → update1 F st v i f d = (r, s) → Post st r s
+  callBuiltin : ∀ {st n args d r s}, StateWF st → ValsWF st.scopes.size args →
+    callBuiltin F st n args d = (r, s) → Post st r s
+
+@[simp] theorem resWF_ok {n v} : ResWF n (.ok v) ↔ ValWF n v := Iff.rfl
+@[simp] theorem resWF_err {n e} : ResWF n (.err e) ↔ ErrWF n e := Iff.rfl
+@[simp] theorem resWF_oof {n} : ResWF n .oof := trivial
+@[simp] theorem resLWF_ok {n v} : ResLWF n (.ok v) ↔ ValsWF n v := Iff.rfl
+@[simp] theorem resLWF_err {n e} : ResLWF n (.err e) ↔ ErrWF n e := Iff.rfl
+@[simp] theorem resLWF_oof {n} : ResLWF n .oof := trivial
+@[simp] theorem resMWF_ok {n v} : ResMWF n (.ok v) ↔ KVsWF n v := Iff.rfl
+@[simp] theorem resMWF_err {n e} : ResMWF n (.err e) ↔ ErrWF n e := Iff.rfl
+@[simp] theorem resMWF_oof {n} : ResMWF n .oof := trivial
+@[simp] theorem errWF_lisp {n p pos} : ErrWF n (.lisp p pos) ↔ ValWF n p := Iff.rfl
+@[simp] theorem errWF_plain' {n m} : ErrWF n (.plain m) := trivial
+
+theorem post_refl {st : State} {r : Res Val} (hw : StateWF st) (hr : ResWF st.scopes.size r) : Post st r st :=
+  ⟨hw, Nat.le_refl _, hr⟩
+
+section steps
+variable {F : Nat} (ih : Inv F)
+include ih
+
+theorem evalList_step {st env xs d r s} (hw : StateWF st) (he : env < st.scopes.size)
+    (hx : ValsWF st.scopes.size xs) (h : evalList (F+1) st env xs d = (r, s)) : PostL st r s := by
+  cases xs with
+  | nil => rw [evalList.eq_2] at h; cases h; exact ⟨hw, Nat.le_refl _, by simp [ResLWF]⟩
+  | cons x xs =>
+    rw [evalList.eq_3] at h
+    simp only [valsWF_cons] at hx
+    rcases h1 : LispModel.eval F st env x (d+1) with ⟨r1, s1⟩
+    rw [h1] at h
+    obtain ⟨w1, l1, v1⟩ := ih.eval hw he hx.1 h1
+    cases r1 with
+    | ok v =>
+      dsimp only at h
+      rcases h2 : LispModel.evalList F s1 env xs d with ⟨r2, s2⟩
+      rw [h2] at h
+      obtain ⟨w2, l2, v2⟩ := ih.evalList w1 (by omega) (valsWF_mono l1 _ hx.2) h2
+      cases r2 <;> cases h <;> refine ⟨w2, by omega, ?_⟩
+      · exact (valsWF_cons _ _).mpr ⟨valWF_mono l2 _ v1, v2⟩
+      · exact v2
+      · trivial
+    | err e => cases h; exact ⟨w1, l1, v1⟩
+    | oof => cases h; exact ⟨w1, l1, trivial⟩
+
+theorem evalMap_step {st env xs d r s} (hw : StateWF st) (he : env < st.scopes.size)
+    (hx : KVsWF st.scopes.size xs) (h : evalMap (F+1) st env xs d = (r, s)) : PostM st r s := by
+  cases xs with
+  | nil => rw [evalMap.eq_2] at h; cases h; exact ⟨hw, Nat.le_refl _, by simp [ResMWF]⟩
+  | cons x xs =>
+    obtain ⟨k, x⟩ := x
+    rw [evalMap.eq_3] at h
+    simp only [kvsWF_cons] at hx
+    rcases h1 : LispModel.eval F st env x (d+1) with ⟨r1, s1⟩
+    rw [h1] at h
+    obtain ⟨w1, l1, v1⟩ := ih.eval hw he hx.1 h1
+    cases r1 with
+    | ok v =>
+      dsimp only at h
+      rcases h2 : LispModel.evalMap F s1 env xs d with ⟨r2, s2⟩
+      rw [h2] at h
+      obtain ⟨w2, l2, v2⟩ := ih.evalMap w1 (by omega) (kvsWF_mono l1 _ hx.2) h2
+      cases r2 <;> cases h <;> refine ⟨w2, by omega, ?_⟩
+      · exact kvsWF_ainsert v2 _ (valWF_mono l2 _ v1)
+      · exact v2
+      · trivial
+    | err e => cases h; exact ⟨w1, l1, v1⟩
+    | oof => cases h; exact ⟨w1, l1, trivial⟩
+
+theorem evalAst_step {st env ast d r s} (hw : StateWF st) (he : env < st.scopes.size)
+    (hx : ValWF st.scopes.size ast) (h : evalAst (F+1) st env ast d = (r, s)) : Post st r s := by
+  cases ast <;> simp only [evalAst] at h
+  case sym nm p =>
+    split at h <;> cases h
+    · exact post_refl hw (stateWF_get hw ‹_›)
+    · exact post_refl hw (by simp)
+  case list xs p =>
+    rcases h1 : LispModel.evalList F st env xs d with ⟨r1, s1⟩
+    rw [h1] at h
+    obtain ⟨w1, l1, v1⟩ := ih.evalList hw he (by simpa using hx) h1
+    cases r1 <;> cases h <;> exact ⟨w1, l1, by simpa using v1⟩
+  case vec xs p =>
+    rcases h1 : LispModel.evalList F st env xs d with ⟨r1, s1⟩
+    rw [h1] at h
+    obtain ⟨w1, l1, v1⟩ := ih.evalList hw he (by simpa using hx) h1
+    cases r1 <;> cases h <;> exact ⟨w1, l1, by simpa using v1⟩
+  case map xs =>
+    rcases h1 : LispModel.evalMap F st env xs d with ⟨r1, s1⟩
+    rw [h1] at h
+    obtain ⟨w1, l1, v1⟩ := ih.evalMap hw he (by simpa using hx) h1
+    cases r1 <;> cases h <;> exact ⟨w1, l1, by simpa using v1⟩
+  all_goals (cases h; exact post_refl hw (by simpa using hx))
+
+omit ih in
+theorem doFin_post {st : State} (b : Bool) {r : R} (h : Post st r.1 r.2) :
+    Post st (EvalErase.doFin b r).1 (EvalErase.doFin b r).2 := by
+  unfold EvalErase.doFin
+  split
+  · split
+    · exact ⟨stateWF_congr h.1 rfl rfl rfl, h.2.1, h.2.2⟩
+    · exact h
+  · exact h
+
+theorem doForms_step {st env lst fr kl d r s} (hw : StateWF st) (he : env < st.scopes.size)
+    (hx : ValsWF st.scopes.size lst) (h : doForms (F+1) st env lst fr kl d = (r, s)) : Post st r s := by
+  rw [EvalErase.doForms_eq] at h
+  have key : ∀ r0 : R, Post st r0.1 r0.2 → EvalErase.doFin (EvalErase.hadOuting1 st) r0 = (r, s) → Post st r s := by
+    intro r0 hp he; have := doFin_post (EvalErase.hadOuting1 st) hp; rw [he] at this; exact this
+  refine key _ ?_ h
+  split
+  · exact post_refl hw (by simp)
+  · rcases h1 : LispModel.evalList F st env (if kl = true then (List.drop fr lst).dropLast else List.drop fr lst) d
+      with ⟨r1, s1⟩
+    have hx' : ValsWF st.scopes.size (if kl = true then (List.drop fr lst).dropLast else List.drop fr lst) := by
+      split
+      · exact valsWF_dropLast (valsWF_drop _ hx)
+      · exact valsWF_drop _ hx
+    obtain ⟨w1, l1, v1⟩ := ih.evalList hw he hx' h1
+    cases r1 with
+    | ok vs =>
+      dsimp only
+      split
+      · exact ⟨w1, l1, by simpa using valsWF_getLastD (valsWF_mono l1 _ hx)⟩
+      · exact ⟨w1, l1, by simpa using valsWF_getLastD v1⟩
+    | err e => exact ⟨w1, l1, v1⟩
+    | oof => exact ⟨w1, l1, trivial⟩
+
+theorem letBinds_step {st env bs a1 d r s} (hw : StateWF st) (he : env < st.scopes.size)
+    (hx : ValsWF st.scopes.size bs) (h : letBinds (F+1) st env bs a1 d = (r, s)) : Post st r s := by
+  match bs, hx with
+  | [], _ => rw [letBinds.eq_2] at h; cases h; exact post_refl hw (by simp)
+  | [_], _ => rw [letBinds.eq_3] at h; cases h; exact post_refl hw (by simp)
+  | b :: x :: rest, hx =>
+    unfold letBinds at h
+    simp only [valsWF_cons] at hx
+    split at h
+    · rcases h1 : LispModel.eval F st env x (d+1) with ⟨r1, s1⟩
+      rw [h1] at h
+      obtain ⟨w1, l1, v1⟩ := ih.eval hw he hx.2.1 h1
+      cases r1 with
+      | ok v =>
+        dsimp only at h
+        have w2 := stateWF_set w1 env ‹String› (v := v) v1
+        obtain ⟨w3, l3, v3⟩ := ih.letBinds w2 (by rw [set_size]; omega)
+          (by rw [set_size]; exact valsWF_mono l1 _ hx.2.2) h
+        rw [set_size] at l3
+        exact ⟨w3, by omega, v3⟩
+      | err e => cases h; exact ⟨w1, l1, v1⟩
+      | oof => cases h; exact ⟨w1, l1, trivial⟩
+    · cases h; exact post_refl hw (by simpa using errWF_newLispError (e := .plain _) trivial _)
+
+omit ih in
+theorem newScope_size (st : State) (o : Nat) (data) :
+    (st.newScope o data).1.scopes.size = st.scopes.size + 1 := by simp [State.newScope]
+
+omit ih in
+theorem newScope_snd (st : State) (o : Nat) (data) : (st.newScope o data).2 = st.scopes.size := rfl
+
+omit ih in
+/-- the scope of a call: well-formed, and the closure's body is well-formed in it -/
+theorem call_scope_wf {st : State} {ps b : Val} {e : Nat} {mc : Bool} {p : Option Pos} {args : List Val}
+    {data : List (String × Val)} (hw : StateWF st) (hf : ValWF st.scopes.size (.fn ps b e mc p))
+    (ha : ValsWF st.scopes.size args) (hb : bindParams ps args = .ok data) :
+    StateWF (st.newScope e data).1 ∧ (st.newScope e data).2 < (st.newScope e data).1.scopes.size ∧
+    ValWF (st.newScope e data).1.scopes.size b ∧ st.scopes.size ≤ (st.newScope e data).1.scopes.size := by
+  simp only [valWF_fn] at hf
+  refine ⟨stateWF_newScope hw hf.2.2 (bindParams_ok ha hb), ?_, ?_, ?_⟩
+  · rw [newScope_size, newScope_snd]; omega
+  · rw [newScope_size]; exact valWF_mono (Nat.le_succ _) _ hf.2.1
+  · rw [newScope_size]; omega
+
+theorem macroexpand_step {st env ast d r s} (hw : StateWF st) (he : env < st.scopes.size)
+    (hx : ValWF st.scopes.size ast) (h : macroexpand (F+1) st env ast d = (r, s)) : Post st r s := by
+  unfold macroexpand at h
+  split at h
+  · rename_i nm _ args _
+    simp only [valWF_list, valsWF_cons] at hx
+    split at h
+    · rename_i params body fenv _ hg
+      have hf := stateWF_get hw hg
+      split at h
+      · rename_i e hb; cases h; exact post_refl hw (bindParams_err hx.2 hb)
+      · rename_i data hb
+        obtain ⟨w0, e0, b0, l0⟩ := call_scope_wf hw hf hx.2 hb
+        dsimp only at h
+        rcases h1 : LispModel.eval F (st.newScope fenv data).1 (st.newScope fenv data).2 body (d+1) with ⟨r1, s1⟩
+        rw [h1] at h
+        obtain ⟨w1, l1, v1⟩ := ih.eval w0 e0 b0 h1
+        cases r1 with
+        | ok v =>
+          dsimp only at h
+          obtain ⟨w2, l2, v2⟩ := ih.macroexpand w1 (by omega) v1 h
+          exact ⟨w2, by omega, v2⟩
+        | err e => cases h; exact ⟨w1, by omega, v1⟩
+        | oof => cases h; exact ⟨w1, by omega, trivial⟩
+    · cases h; exact post_refl hw (by simpa using hx)
+  · cases h; exact post_refl hw (by simpa using hx)
+
+theorem apply_step {st f args d r s} (hw : StateWF st) (hf : ValWF st.scopes.size f)
+    (ha : ValsWF st.scopes.size args) (h : apply (F+1) st f args d = (r, s)) : Post st r s := by
+  unfold apply at h
+  split at h
+  · rename_i params body fenv _ _
+    split at h
+    · rename_i e hb; cases h; exact post_refl hw (bindParams_err ha hb)
+    · rename_i data hb
+      obtain ⟨w0, e0, b0, l0⟩ := call_scope_wf hw hf ha hb
+      dsimp only at h
+      obtain ⟨w1, l1, v1⟩ := ih.eval w0 e0 b0 h
+      exact ⟨w1, by omega, v1⟩
+  · exact ih.callBuiltin hw ha h
+  · cases h; exact post_refl hw (by simp)
+
+theorem mapLoop_step {st f xs d r s} (hw : StateWF st) (hf : ValWF st.scopes.size f)
+    (hx : ValsWF st.scopes.size xs) (h : mapLoop (F+1) st f xs d = (r, s)) : PostL st r s := by
+  cases xs with
+  | nil => rw [mapLoop.eq_2] at h; cases h; exact ⟨hw, Nat.le_refl _, by simp⟩
+  | cons x xs =>
+    rw [mapLoop.eq_3] at h
+    simp only [valsWF_cons] at hx
+    rcases h1 : LispModel.apply F st f [x] d with ⟨r1, s1⟩
+    rw [h1] at h
+    obtain ⟨w1, l1, v1⟩ := ih.apply hw hf (by simp [hx.1]) h1
+    cases r1 with
+    | ok v =>
+      dsimp only at h
+      rcases h2 : LispModel.mapLoop F s1 f xs d with ⟨r2, s2⟩
+      rw [h2] at h
+      obtain ⟨w2, l2, v2⟩ := ih.mapLoop w1 (valWF_mono l1 _ hf) (valsWF_mono l1 _ hx.2) h2
+      cases r2 <;> cases h <;> refine ⟨w2, by omega, ?_⟩
+      · exact (valsWF_cons _ _).mpr ⟨valWF_mono l2 _ v1, v2⟩
+      · exact v2
+      · trivial
+    | err e => cases h; exact ⟨w1, l1, v1⟩
+    | oof => cases h; exact ⟨w1, l1, trivial⟩
+
+omit ih in
+theorem assocRes_post {st s1 : State} {b : BRes} {r s} (w1 : StateWF s1) (l1 : st.scopes.size ≤ s1.scopes.size)
+    (hb : BResWF s1.scopes.size b) (h : EvalErase.assocRes b s1 = (r, s)) : Post st r s := by
+  cases b <;> simp only [EvalErase.assocRes] at h <;> cases h
+  · exact ⟨w1, l1, hb⟩
+  · exact ⟨w1, l1, hb⟩
+  · exact ⟨w1, l1, by simp⟩
+
+omit ih in
+theorem curOf_wf {n : Nat} {v i c : Val} (hv : ValWF n v) (h : EvalErase.curOf v i = some c) : ValWF n c := by
+  unfold EvalErase.curOf at h
+  split at h
+  · cases h; simp only [valWF_map] at hv; exact kvsWF_alookup hv _
+  · simp only [valWF_vec] at hv
+    split at h
+    · cases h; exact valsWF_getD hv _
+    · cases h
+  · cases h
+
+omit ih in
+theorem updBranch_wf {n : Nat} {v i c : Val} (hv : ValWF n v) (h : EvalErase.updBranch v i = some c) : ValWF n c := by
+  unfold EvalErase.updBranch at h
+  split at h
+  · cases h; simp only [valWF_map] at hv; exact nilOr_wf (kvsWF_alookup hv _) (by simp)
+  · simp only [valWF_vec] at hv
+    split at h
+    · cases h; exact nilOr_wf (valsWF_getD hv _) (by simp)
+    · cases h
+  · cases h
+
+theorem update1_step {st v i f d r s} (hw : StateWF st) (hv : ValWF st.scopes.size v)
+    (hi : ValWF st.scopes.size i) (hf : ValWF st.scopes.size f)
+    (h : update1 (F+1) st v i f d = (r, s)) : Post st r s := by
+  rw [EvalErase.update1_eq] at h
+  have main : ∀ {r s}, (match EvalErase.curOf v i with
+         | none => ((.err (.lisp (.goerr "interface conversion or index out of range") none), st) : R)
+         | some c =>
+           match LispModel.apply F st f [c] d with
+           | (.ok res, st) => EvalErase.assocRes (Core.assoc [v, i, res]) st
+           | r => r) = (r, s) → Post st r s := by
+    intro r s h
+    split at h
+    · cases h; exact post_refl hw (by simp)
+    · rename_i c hc
+      rcases h1 : LispModel.apply F st f [c] d with ⟨r1, s1⟩
+      rw [h1] at h
+      obtain ⟨w1, l1, v1⟩ := ih.apply hw hf (by simp [curOf_wf hv hc]) h1
+      cases r1 with
+      | ok res =>
+        dsimp only at h
+        refine assocRes_post w1 l1 (assoc_wf _ ?_) h
+        simp only [valsWF_cons, valsWF_nil, and_true]
+        exact ⟨valWF_mono l1 _ hv, valWF_mono l1 _ hi, v1⟩
+      | err e => cases h; exact ⟨w1, l1, v1⟩
+      | oof => cases h; exact ⟨w1, l1, trivial⟩
+  split at h
+  · exact main h
+  · exact main h
+  · cases h; exact post_refl hw (by simp)
+
+theorem updateIn_step {st v p f d r s} (hw : StateWF st) (hv : ValWF st.scopes.size v)
+    (hp : ValsWF st.scopes.size p) (hf : ValWF st.scopes.size f)
+    (h : updateIn (F+1) st v p f d = (r, s)) : Post st r s := by
+  match p, hp with
+  | [], _ => rw [updateIn.eq_2] at h; cases h; exact post_refl hw hv
+  | [i], hp => rw [updateIn.eq_3] at h; exact ih.update1 hw hv (by simpa using hp) hf h
+  | i :: j :: rest, hp =>
+    rw [EvalErase.updateIn_eq3] at h
+    simp only [valsWF_cons] at hp
+    split at h
+    · cases h; exact post_refl hw (by simp)
+    · rename_i b hb
+      split at h
+      · cases h; exact post_refl hw (by simp)
+      · rcases h1 : LispModel.updateIn F st b (j :: rest) f d with ⟨r1, s1⟩
+        rw [h1] at h
+        obtain ⟨w1, l1, v1⟩ := ih.updateIn hw (updBranch_wf hv hb) (by simp [hp.2.1, hp.2.2]) hf h1
+        cases r1 with
+        | ok res =>
+          dsimp only at h
+          refine assocRes_post w1 l1 (assoc_wf _ ?_) h
+          simp only [valsWF_cons, valsWF_nil, and_true]
+          exact ⟨valWF_mono l1 _ hv, valWF_mono l1 _ hp.1, v1⟩
+        | err e => cases h; exact ⟨w1, l1, v1⟩
+        | oof => cases h; exact ⟨w1, l1, trivial⟩
+
+theorem callBuiltin_step {st nm args d r s} (hw : StateWF st) (ha : ValsWF st.scopes.size args)
+    (h : callBuiltin (F+1) st nm args d = (r, s)) : Post st r s := by
+  unfold callBuiltin at h; dsimp only at h
+  by_cases hn : nm = "trace!"
+  · rw [if_pos hn] at h
+    split at h <;> cases h
+    · simp only [valsWF_cons] at ha; exact ⟨stateWF_trace hw ha.1, Nat.le_refl _, ha.1⟩
+    · exact post_refl hw (by simp)
+  rw [if_neg hn] at h; clear hn
+  by_cases hn : nm = "depth!"
+  · rw [if_pos hn] at h
+    split at h <;> cases h
+    · exact ⟨stateWF_congr hw rfl rfl rfl, Nat.le_refl _, by simp⟩
+    · exact post_refl hw (by simp)
+  rw [if_neg hn] at h; clear hn
+  by_cases hn : nm = "eval"
+  · rw [if_pos hn] at h
+    split at h
+    · simp only [valsWF_cons] at ha; exact ih.eval hw hw.root ha.1 h
+    · cases h; exact post_refl hw (by simp)
+  rw [if_neg hn] at h; clear hn
+  by_cases hn : nm = "apply"
+  · rw [if_pos hn] at h
+    split at h
+    · simp only [valsWF_cons] at ha
+      split at h
+      · cases h; exact post_refl hw (by simp)
+      · rename_i rest _ last hl
+        have hlast : ValWF st.scopes.size last := by
+          have := valsWF_getLastD ha.2; rw [hl] at this; exact this
+        split at h
+        · cases h; exact post_refl hw (by simp)
+        · rename_i tail ht
+          exact ih.apply hw ha.1 (valsWF_append.mpr ⟨valsWF_dropLast ha.2, valsWF_seqOf hlast ht⟩) h
+    · cases h; exact post_refl hw (by simp)
+  rw [if_neg hn] at h; clear hn
+  by_cases hn : nm = "map"
+  · rw [if_pos hn] at h
+    split at h
+    · simp only [valsWF_cons] at ha
+      split at h
+      · cases h; exact post_refl hw (by simp)
+      · rename_i f0 _ _ xs hs
+        rcases h1 : LispModel.mapLoop F st f0 xs d with ⟨r1, s1⟩
+        rw [h1] at h
+        obtain ⟨w1, l1, v1⟩ := ih.mapLoop hw ha.1 (valsWF_seqOf ha.2.1 hs) h1
+        cases r1 <;> cases h <;> exact ⟨w1, l1, by simpa using v1⟩
+    · cases h; exact post_refl hw (by simp)
+  rw [if_neg hn] at h; clear hn
+  by_cases hn : nm = "atom"
+  · rw [if_pos hn] at h
+    split at h <;> cases h
+    · simp only [valsWF_cons] at ha; exact ⟨stateWF_newAtom hw ha.1, Nat.le_refl _, by simp⟩
+    · exact post_refl hw (by simp)
+  rw [if_neg hn] at h; clear hn
+  by_cases hn : nm = "deref"
+  · rw [if_pos hn] at h
+    split at h <;> cases h
+    · exact post_refl hw (stateWF_atomGetD hw _)
+    · exact post_refl hw (by simp)
+    · exact post_refl hw (by simp)
+  rw [if_neg hn] at h; clear hn
+  by_cases hn : nm = "reset!"
+  · rw [if_pos hn] at h
+    split at h <;> cases h
+    · simp only [valsWF_cons] at ha; exact ⟨stateWF_setAtom hw _ ha.2.1, Nat.le_refl _, ha.2.1⟩
+    · exact post_refl hw (by simp)
+    · exact post_refl hw (by simp)
+  rw [if_neg hn] at h; clear hn
+  by_cases hn : nm = "swap!"
+  · rw [if_pos hn] at h
+    split at h
+    · rename_i id f extra
+      simp only [valsWF_cons] at ha
+      rcases h1 : LispModel.apply F st f (st.atoms.getD id .nil :: extra) d with ⟨r1, s1⟩
+      rw [h1] at h
+      obtain ⟨w1, l1, v1⟩ := ih.apply hw ha.2.1 ((valsWF_cons _ _).mpr ⟨stateWF_atomGetD hw _, ha.2.2⟩) h1
+      cases r1 <;> cases h
+      · exact ⟨stateWF_setAtom w1 _ v1, l1, v1⟩
+      · exact ⟨w1, l1, v1⟩
+      · exact ⟨w1, l1, trivial⟩
+    · cases h; exact post_refl hw (by simp)
+    · cases h; exact post_refl hw (by simp)
+  rw [if_neg hn] at h; clear hn
+  by_cases hn : nm = "update"
+  · rw [if_pos hn] at h
+    split at h
+    · cases h; exact post_refl hw (by simp)
+    · simp only [valsWF_cons] at ha; exact ih.update1 hw ha.1 ha.2.1 ha.2.2.1 h
+    · cases h; exact post_refl hw (by simp)
+  rw [if_neg hn] at h; clear hn
+  by_cases hn : nm = "update-in"
+  · rw [if_pos hn] at h
+    split at h
+    · simp only [valsWF_cons, valWF_vec] at ha
+      split at h
+      · cases h; exact post_refl hw (by simp)
+      · exact ih.updateIn hw ha.1 ha.2.1 ha.2.2.1 h
+    · cases h; exact post_refl hw (by simp)
+    · cases h; exact post_refl hw (by simp)
+  rw [if_neg hn] at h; clear hn
+  split at h <;> cases h
+  · rename_i v hc; exact post_refl hw (by simpa using call_wf ha hc)
+  · rename_i v hc; exact post_refl hw (by simpa using call_wf ha hc)
+  · exact post_refl hw (by simp)
+  · exact post_refl hw (by simp)
+
+omit ih in
+theorem epilogue_wf {b1 b2 : Bool} {s : State} (h : StateWF s) : StateWF (EvalErase.epilogue b1 b2 s) := by
+  unfold EvalErase.epilogue
+  split
+  · exact h
+  · exact stateWF_congr h rfl rfl rfl
+
+omit ih in
+theorem epilogue_scopes (b1 b2 : Bool) (s : State) : (EvalErase.epilogue b1 b2 s).scopes = s.scopes := by
+  unfold EvalErase.epilogue
+  split <;> rfl
+
+theorem eval_step {st env ast d r s} (hw : StateWF st) (he : env < st.scopes.size)
+    (hx : ValWF st.scopes.size ast) (h : eval (F+1) st env ast d = (r, s)) : Post st r s := by
+  cases hs : st.stepper with
+  | none => rw [eval_stepper_none hs] at h; exact ih.evalLoop hw he hx h
+  | some sp =>
+    rw [EvalErase.eval_eq_some hs] at h
+    rcases h1 : LispModel.evalLoop F { st with stepper := some (EvalErase.prologue sp ast).1 } env ast d with ⟨r1, s1⟩
+    rw [h1] at h
+    obtain ⟨w1, l1, v1⟩ := ih.evalLoop (st := { st with stepper := some (EvalErase.prologue sp ast).1 })
+      (stateWF_congr hw rfl rfl rfl) he hx h1
+    cases h
+    exact ⟨epilogue_wf w1, by rw [epilogue_scopes]; exact l1, by rw [epilogue_scopes]; exact v1⟩
+
+theorem continueWith_post {st env ast d r s} (hw : StateWF st) (he : env < st.scopes.size)
+    (hx : ValWF st.scopes.size ast) (h : continueWith F st env ast d = (r, s)) : Post st r s := by
+  unfold continueWith at h
+  split at h
+  · exact ih.evalLoop hw he hx h
+  · exact ih.eval hw he hx h
+
+omit ih in
+theorem post_trans {a b c : State} {r : Res Val} (l : a.scopes.size ≤ b.scopes.size) (h : Post b r c) : Post a r c :=
+  ⟨h.1, Nat.le_trans l h.2.1, h.2.2⟩
+
+omit ih in
+theorem partsWF_mono {n m : Nat} (h : n ≤ m) {parts : TryParts} (hp : PartsWF n parts) : PartsWF m parts :=
+  ⟨valsWF_mono h _ hp.body, fun b hb => valWF_mono h _ (hp.bind b hb),
+   fun x hx => valsWF_mono h _ (hp.handler x hx), fun x hx => valsWF_mono h _ (hp.fin x hx)⟩
+
+theorem tryCatch_post {parts : TryParts} {env d : Nat} {rb : Res Val} {sb : State} {rc sc}
+    (wb : StateWF sb) (eb : env < sb.scopes.size) (hp : PartsWF sb.scopes.size parts)
+    (vb : ResWF sb.scopes.size rb) (h : tryCatch F parts env d rb sb = (rc, sc)) : Post sb rc sc := by
+  unfold tryCatch at h
+  split at h
+  · cases h; exact post_refl wb vb
+  · cases h; exact post_refl wb trivial
+  · rename_i e
+    split at h
+    · rename_i handler bind hh hbd
+      have hcv : ValWF sb.scopes.size (caughtValue e) := valWF_caughtValue vb
+      split at h
+      · rename_i be hbe; cases h
+        exact post_refl wb (bindParams_err (args := [caughtValue e]) ((valsWF_cons _ _).mpr ⟨hcv, valsWF_nil⟩) hbe)
+      · rename_i data hdata
+        have hd := bindParams_ok (args := [caughtValue e]) ((valsWF_cons _ _).mpr ⟨hcv, valsWF_nil⟩) hdata
+        have w2 := stateWF_newScope wb eb hd
+        have z2 := newScope_size sb env data
+        obtain ⟨w3, l3, v3⟩ := ih.doForms w2 (by rw [newScope_snd]; omega)
+          (valsWF_mono (by omega) _ (hp.handler _ hh)) h
+        exact ⟨w3, by omega, v3⟩
+    · cases h; exact post_refl wb vb
+
+theorem tryFinally_post {parts : TryParts} {env d : Nat} {rc : Res Val} {sc : State} {r s}
+    (wc : StateWF sc) (ec : env < sc.scopes.size) (hp : PartsWF sc.scopes.size parts)
+    (vc : ResWF sc.scopes.size rc) (h : tryFinally F parts env d rc sc = (r, s)) : Post sc r s := by
+  unfold tryFinally at h
+  split at h
+  · cases h; exact post_refl wc trivial
+  · split at h
+    · cases h
+      exact ⟨stateWF_outing1Defer wc, by rw [outing1Defer_scopes]; exact Nat.le_refl _,
+        by rw [outing1Defer_scopes]; exact vc⟩
+    · rename_i fin hfin
+      rcases h2 : LispModel.doForms F sc env fin 0 false d with ⟨r2, s2⟩
+      rw [h2] at h
+      obtain ⟨w2, l2, v2⟩ := ih.doForms wc ec (hp.fin _ hfin) h2
+      cases r2 <;> cases h
+      · exact ⟨w2, l2, resWF_mono l2 vc⟩
+      · exact ⟨w2, l2, resWF_mono l2 vc⟩
+      · exact ⟨w2, l2, trivial⟩
+
+
+section arms
+variable {st s1 : State} {env d : Nat} {a0 : Val} {ops : List Val} {p' : Option Pos} {r : Res Val} {s : State}
+  (w1 : StateWF s1) (e1 : env < s1.scopes.size) (hl : ValsWF s1.scopes.size (a0 :: ops))
+include w1 e1 hl
+
+theorem arm_def_post
+    (h : (match LispModel.eval F s1 env (ops.getD 1 .nil) (d+1) with
+      | (.ok res, s2) =>
+        (match ops.getD 0 .nil with
+         | .sym name _ => (.ok res, s2.set env name res)
+         | _ => (.err (newLispError (.plain "cannot use value as identifier") (.list (a0 :: ops) p')), s2))
+      | r => r) = (r, s)) : Post s1 r s := by
+  simp only [valsWF_cons] at hl
+  rcases h1 : LispModel.eval F s1 env (ops.getD 1 .nil) (d+1) with ⟨r1, s2⟩
+  rw [h1] at h
+  obtain ⟨w2, l2, v2⟩ := ih.eval w1 e1 (valsWF_getD hl.2 _) h1
+  cases r1 with
+  | ok v =>
+    dsimp only at h
+    split at h <;> cases h
+    · exact ⟨stateWF_set w2 _ _ v2, by rw [set_size]; exact l2, by rw [set_size]; exact v2⟩
+    · exact ⟨w2, l2, by simpa using errWF_newLispError (e := .plain _) trivial _⟩
+  | err e => cases h; exact ⟨w2, l2, v2⟩
+  | oof => cases h; exact ⟨w2, l2, trivial⟩
+
+theorem arm_defmacro_post
+    (h : (match LispModel.eval F s1 env (ops.getD 1 .nil) (d + 1) with
+      | (.ok f, s2) =>
+        (match f with
+         | .fn ps b e _ fp =>
+           (match ops.getD 0 .nil with
+            | .sym name _ => (.ok (Val.fn ps b e true fp), s2.set env name (Val.fn ps b e true fp))
+            | _ => (.err (newLispError (.plain "cannot use value as identifier") (.list (a0 :: ops) p')), s2))
+         | _ => (.err (newLispError (.plain "defmacro requires a function") (.list (a0 :: ops) p')), s2))
+      | r => r) = (r, s)) : Post s1 r s := by
+  simp only [valsWF_cons] at hl
+  rcases h1 : LispModel.eval F s1 env (ops.getD 1 .nil) (d+1) with ⟨r1, s2⟩
+  rw [h1] at h
+  obtain ⟨w2, l2, v2⟩ := ih.eval w1 e1 (valsWF_getD hl.2 _) h1
+  cases r1 with
+  | ok v =>
+    dsimp only at h
+    split at h
+    · rename_i ps b e mc fp
+      have v2' : ValWF s2.scopes.size (Val.fn ps b e true fp) := by
+        simpa using v2
+      split at h <;> cases h
+      · exact ⟨stateWF_set w2 _ _ v2', by rw [set_size]; exact l2, by rw [set_size]; exact v2'⟩
+      · exact ⟨w2, l2, by simpa using errWF_newLispError (e := .plain _) trivial _⟩
+    · cases h; exact ⟨w2, l2, by simpa using errWF_newLispError (e := .plain _) trivial _⟩
+  | err e => cases h; exact ⟨w2, l2, v2⟩
+  | oof => cases h; exact ⟨w2, l2, trivial⟩
+
+theorem arm_let_post
+    (h : (match seqOf? (ops.getD 0 .nil) with
+      | none => (.err (.plain "GetSlice called on non-sequence"), (s1.newScope env []).1)
+      | some arr1 =>
+        if arr1.length % 2 ≠ 0 then
+          (.err (newLispError (.plain "let: odd elements on binding vector") (ops.getD 0 .nil)), (s1.newScope env []).1)
+        else
+          match letBinds F (s1.newScope env []).1 (s1.newScope env []).2 arr1 (ops.getD 0 .nil) d with
+          | (.ok _, s2) =>
+            (match doForms F s2 (s1.newScope env []).2 (a0 :: ops) 2 true d with
+             | (.ok next, s3) => continueWith F s3 (s1.newScope env []).2 next d
+             | r => r)
+          | r => r) = (r, s)) : Post s1 r s := by
+  have hops : ValsWF s1.scopes.size ops := ((valsWF_cons _ _).mp hl).2
+  have w2 : StateWF (s1.newScope env []).1 := stateWF_newScope w1 e1 (by simp)
+  have z2 := newScope_size s1 env []
+  have l2 : s1.scopes.size ≤ (s1.newScope env []).1.scopes.size := by omega
+  have e2 : (s1.newScope env []).2 < (s1.newScope env []).1.scopes.size := by rw [newScope_snd]; omega
+  generalize (s1.newScope env []).1 = s2 at *
+  generalize (s1.newScope env []).2 = letEnv at *
+  split at h
+  · cases h; exact ⟨w2, l2, by simp⟩
+  · rename_i arr1 ha1
+    split at h
+    · cases h; exact ⟨w2, l2, by simpa using errWF_newLispError (e := .plain _) trivial _⟩
+    · rcases h3 : LispModel.letBinds F s2 letEnv arr1 (ops.getD 0 .nil) d with ⟨r3, s3⟩
+      rw [h3] at h
+      obtain ⟨w3, l3, v3⟩ := ih.letBinds w2 e2 (valsWF_seqOf (valsWF_getD (valsWF_mono l2 _ hops) _) ha1) h3
+      cases r3 with
+      | ok v =>
+        dsimp only at h
+        rcases h4 : LispModel.doForms F s3 letEnv (a0 :: ops) 2 true d with ⟨r4, s4⟩
+        rw [h4] at h
+        obtain ⟨w4, l4, v4⟩ := ih.doForms w3 (by omega) (valsWF_mono (by omega) _ hl) h4
+        cases r4 with
+        | ok next =>
+          dsimp only at h
+          exact post_trans (by omega) (continueWith_post ih w4 (by omega) v4 h)
+        | err e => cases h; exact ⟨w4, by omega, v4⟩
+        | oof => cases h; exact ⟨w4, by omega, trivial⟩
+      | err e => cases h; exact ⟨w3, by omega, v3⟩
+      | oof => cases h; exact ⟨w3, by omega, trivial⟩
+
+theorem arm_do_post
+    (h : (match doForms F s1 env (a0 :: ops) 1 true d with
+      | (.ok next, s2) => continueWith F s2 env next d
+      | r => r) = (r, s)) : Post s1 r s := by
+  rcases h4 : LispModel.doForms F s1 env (a0 :: ops) 1 true d with ⟨r4, s4⟩
+  rw [h4] at h
+  obtain ⟨w4, l4, v4⟩ := ih.doForms w1 e1 hl h4
+  cases r4 with
+  | ok next =>
+    dsimp only at h
+    exact post_trans (by omega) (continueWith_post ih w4 (by omega) v4 h)
+  | err e => cases h; exact ⟨w4, by omega, v4⟩
+  | oof => cases h; exact ⟨w4, by omega, trivial⟩
+
+theorem arm_if_post
+    (h : (match LispModel.eval F s1 env (ops.getD 0 .nil) (d+1) with
+      | (.ok cond, s2) =>
+         if truthy cond then continueWith F s2 env (ops.getD 1 .nil) d
+         else if (a0 :: ops).length ≥ 4 then continueWith F s2 env ((a0 :: ops).getD 3 .nil) d
+         else (.ok .nil, s2)
+      | r => r) = (r, s)) : Post s1 r s := by
+  have hops : ValsWF s1.scopes.size ops := ((valsWF_cons _ _).mp hl).2
+  rcases h2 : LispModel.eval F s1 env (ops.getD 0 .nil) (d+1) with ⟨r2, s2⟩
+  rw [h2] at h
+  obtain ⟨w2, l2, v2⟩ := ih.eval w1 e1 (valsWF_getD hops _) h2
+  cases r2 with
+  | ok c =>
+    dsimp only at h
+    split at h
+    · exact post_trans l2 (continueWith_post ih w2 (by omega) (valsWF_getD (valsWF_mono l2 _ hops) _) h)
+    · split at h
+      · exact post_trans l2 (continueWith_post ih w2 (by omega) (valsWF_getD (valsWF_mono l2 _ hl) _) h)
+      · cases h; exact ⟨w2, l2, by simp⟩
+  | err e => cases h; exact ⟨w2, l2, v2⟩
+  | oof => cases h; exact ⟨w2, l2, trivial⟩
+
+omit ih in
+theorem arm_fn_post
+    (h : (if (a0 :: ops).length < 2 then
+        ((.err (newLispError (.plain "fn requires a parameter list") (.list (a0 :: ops) p')), s1) : R)
+      else (.ok (.fn (ops.getD 0 .nil) (.list (.sym "do" none :: (a0 :: ops).drop 2) none) env false p'), s1)) = (r, s)) :
+    Post s1 r s := by
+  have hops : ValsWF s1.scopes.size ops := ((valsWF_cons _ _).mp hl).2
+  split at h <;> cases h
+  · exact post_refl w1 (by simpa using errWF_newLispError (e := .plain _) trivial _)
+  · refine post_refl w1 ?_
+    simp only [resWF_ok, valWF_fn, valWF_list, valsWF_cons, valWF_sym, true_and]
+    exact ⟨valsWF_getD hops _, valsWF_drop _ hl, e1⟩
+
+theorem arm_app_post
+    (h : (match LispModel.evalList F s1 env (a0 :: ops) d with
+      | (.ok el, st) =>
+        (match el with
+         | [] => (.err (.plain "empty application"), st)
+         | f :: args =>
+           match f with
+           | .fn params body fenv _ _ =>
+             (match bindParams params args with
+              | .error e =>
+                (match e with
+                 | .lisp (.goerr m) _ => (.err (.lisp (.goerr (m ++ " (around do)")) none), st)
+                 | e => (.err (newLispError e body), st))
+              | .ok data => continueWith F (st.newScope fenv data).1 (st.newScope fenv data).2 body d)
+           | .builtin name =>
+             (match callBuiltin F st name args d with
+              | (.ok v, st) => (.ok v, st)
+              | (.err e, st) => (.err (newLispError e (.list (a0 :: ops) p')), st)
+              | (.oof, st) => (.oof, st))
+           | _ => (.err (.lisp (.goerr "attempt to call non-function") none), st))
+      | (.err e, st) => (.err e, st)
+      | (.oof, st) => (.oof, st)) = (r, s)) : Post s1 r s := by
+  rcases h2 : LispModel.evalList F s1 env (a0 :: ops) d with ⟨r2, s2⟩
+  rw [h2] at h
+  obtain ⟨w2, l2, v2⟩ := ih.evalList w1 e1 hl h2
+  cases r2 with
+  | ok el =>
+    dsimp only at h
+    split at h
+    · cases h; exact ⟨w2, l2, by simp⟩
+    · rename_i f args
+      simp only [resLWF_ok, valsWF_cons] at v2
+      split at h
+      · rename_i params body fenv _ _
+        split at h
+        · rename_i e hb
+          have he := bindParams_err v2.2 hb
+          split at h <;> cases h
+          · exact ⟨w2, l2, by simp⟩
+          · exact ⟨w2, l2, by simpa using errWF_newLispError he _⟩
+        · rename_i data hb
+          obtain ⟨w3, e3, b3, l3⟩ := call_scope_wf w2 v2.1 v2.2 hb
+          exact post_trans (by omega) (continueWith_post ih w3 e3 b3 h)
+      · rename_i name
+        rcases h3 : LispModel.callBuiltin F s2 name args d with ⟨r3, s3⟩
+        rw [h3] at h
+        obtain ⟨w3, l3, v3⟩ := ih.callBuiltin w2 v2.2 h3
+        cases r3 <;> cases h
+        · exact ⟨w3, by omega, v3⟩
+        · exact ⟨w3, by omega, by simpa using errWF_newLispError v3 _⟩
+        · exact ⟨w3, by omega, trivial⟩
+      · cases h; exact ⟨w2, l2, by simp⟩
+  | err e => cases h; exact ⟨w2, l2, v2⟩
+  | oof => cases h; exact ⟨w2, l2, trivial⟩
+
+theorem arm_try_post
+    (h : (if ops.isEmpty then ((.ok .nil, s1) : R) else
+      match splitTry (a0 :: ops) with
+      | .error msg => (.err (newLispError (.plain msg) (.list (a0 :: ops) p')), s1)
+      | .ok parts =>
+        tryFinally F parts env d
+          (tryCatch F parts env d (LispModel.doForms F s1 env parts.body 0 false d).1 (LispModel.doForms F s1 env parts.body 0 false d).2).1
+          (tryCatch F parts env d (LispModel.doForms F s1 env parts.body 0 false d).1 (LispModel.doForms F s1 env parts.body 0 false d).2).2) = (r, s)) :
+    Post s1 r s := by
+  split at h
+  · cases h; exact post_refl w1 (by simp)
+  split at h
+  · cases h; exact post_refl w1 (by simpa using errWF_newLispError (e := .plain _) trivial _)
+  rename_i parts hsp
+  have hp := splitTry_wf hl hsp
+  rcases hb : LispModel.doForms F s1 env parts.body 0 false d with ⟨rb, sb⟩
+  rw [hb] at h; dsimp only at h
+  obtain ⟨wb, lb, vb⟩ := ih.doForms w1 e1 hp.body hb
+  rcases hc : tryCatch F parts env d rb sb with ⟨rc, sc⟩
+  rw [hc] at h; dsimp only at h
+  obtain ⟨wc, lc, vc⟩ := tryCatch_post ih wb (by omega) (partsWF_mono lb hp) vb hc
+  obtain ⟨wf, lf, vf⟩ := tryFinally_post ih wc (by omega) (partsWF_mono (by omega) hp) vc h
+  exact ⟨wf, by omega, vf⟩
+
+end arms
+
+theorem evalLoop_step {st env ast d r s} (hw : StateWF st) (he : env < st.scopes.size)
+    (hx : ValWF st.scopes.size ast) (h : evalLoop (F+1) st env ast d = (r, s)) : Post st r s := by
+  rcases hp : st.poll with ⟨dn, s0⟩
+  have e0 : s0 = st.poll.2 := by rw [hp]
+  have w0 : StateWF s0 := by rw [e0]; exact stateWF_poll hw
+  have z0 : s0.scopes.size = st.scopes.size := by rw [e0]; rfl
+  cases dn with
+  | true => rw [evalLoop_timeout hp] at h; cases h; exact ⟨w0, by omega, by simpa using errWF_timeout _⟩
+  | false =>
+    by_cases hl : ∃ xs p, ast = .list xs p
+    case neg =>
+      rw [evalLoop_nonlist hp (fun xs p hc => hl ⟨xs, p, hc⟩)] at h
+      exact post_trans (by omega) (ih.evalAst w0 (by omega) (by rw [z0]; exact hx) h)
+    obtain ⟨xs, p, rfl⟩ := hl
+    rcases hm : LispModel.macroexpand F s0 env (.list xs p) d with ⟨rm, s1⟩
+    obtain ⟨w1, l1, v1⟩ := ih.macroexpand w0 (by omega) (by rw [z0]; exact hx) hm
+    have e1 : env < s1.scopes.size := by omega
+    have l01 : st.scopes.size ≤ s1.scopes.size := by omega
+    cases rm with
+    | err e => rw [evalLoop_mac_err hp hm] at h; cases h; exact ⟨w1, l01, v1⟩
+    | oof => rw [evalLoop_mac_oof hp hm] at h; cases h; exact ⟨w1, l01, trivial⟩
+    | ok ast' =>
+      by_cases hl' : ∃ xs p, ast' = .list xs p
+      case neg =>
+        rw [evalLoop_mac_nonlist hp hm (fun xs p hc => hl' ⟨xs, p, hc⟩)] at h
+        exact post_trans l01 (ih.evalAst w1 e1 v1 h)
+      obtain ⟨ys, p', rfl⟩ := hl'
+      cases ys with
+      | nil => rw [evalLoop_mac_empty hp hm] at h; cases h; exact ⟨w1, l01, v1⟩
+      | cons a0 ops =>
+        have hlst : ValsWF s1.scopes.size (a0 :: ops) := by simpa using v1
+        have hops : ValsWF s1.scopes.size ops := ((valsWF_cons _ _).mp hlst).2
+        refine post_trans l01 ?_
+        by_cases h_def : a0sym a0 = "def"
+        · rw [evalLoop_def hp hm h_def] at h; exact arm_def_post ih w1 e1 hlst h
+        by_cases h_let : a0sym a0 = "let"
+        · rw [evalLoop_let hp hm h_let] at h; exact arm_let_post ih w1 e1 hlst h
+        by_cases h_quote : a0sym a0 = "quote"
+        · rw [evalLoop_quote hp hm h_quote] at h; cases h
+          exact post_refl w1 (valsWF_getD hops _)
+        by_cases h_qqe : a0sym a0 = "quasiquoteexpand"
+        · rw [evalLoop_quasiquoteexpand hp hm h_qqe] at h; cases h
+          exact post_refl w1 (quasiquote_wf _ (valsWF_getD hops _))
+        by_cases h_qq : a0sym a0 = "quasiquote"
+        · rw [evalLoop_quasiquote hp hm h_qq] at h
+          exact continueWith_post ih w1 e1 (quasiquote_wf _ (valsWF_getD hops _)) h
+        by_cases h_defmacro : a0sym a0 = "defmacro"
+        · rw [evalLoop_defmacro hp hm h_defmacro] at h; exact arm_defmacro_post ih w1 e1 hlst h
+        by_cases h_macroexpand : a0sym a0 = "macroexpand"
+        · rw [evalLoop_macroexpand hp hm h_macroexpand] at h
+          exact ih.macroexpand w1 e1 (valsWF_getD hops _) h
+        by_cases h_try : a0sym a0 = "try"
+        · rw [evalLoop_try hp hm h_try] at h; exact arm_try_post ih w1 e1 hlst h
+        by_cases h_do : a0sym a0 = "do"
+        · rw [evalLoop_do hp hm h_do] at h; exact arm_do_post ih w1 e1 hlst h
+        by_cases h_if : a0sym a0 = "if"
+        · rw [evalLoop_if hp hm h_if] at h; exact arm_if_post ih w1 e1 hlst h
+        by_cases h_fn : a0sym a0 = "fn"
+        · rw [evalLoop_fn hp hm h_fn] at h; exact arm_fn_post w1 e1 hlst h
+        have ha : a0sym a0 ∉ specialForms := by
+          simp only [specialForms, List.mem_cons, List.not_mem_nil, or_false, not_or]
+          exact ⟨h_def, h_let, h_quote, h_qqe, h_qq, h_defmacro, h_macroexpand, h_try, h_do, h_if, h_fn⟩
+        rw [evalLoop_app hp hm ha] at h
+        exact arm_app_post ih w1 e1 hlst h
+
+end steps
+
+/-- **store well-formedness is an invariant of the whole evaluator block**: at every fuel, each of the
+    13 functions started in a well-formed store (on well-formed inputs, in an existing scope) ends in a
+    well-formed store that is at least as large, and its value / error payload is well-formed there -/
+theorem inv : ∀ F, Inv F := by
+  intro F
+  induction F with
+  | zero =>
+    constructor <;> intros <;> rename_i h
+    · rw [eval.eq_1] at h; cases h; exact post_refl ‹_› trivial
+    · rw [evalLoop.eq_1] at h; cases h; exact post_refl ‹_› trivial
+    · unfold evalAst at h; cases h; exact post_refl ‹_› trivial
+    · rw [evalList.eq_1] at h; cases h; exact ⟨‹_›, Nat.le_refl _, trivial⟩
+    · rw [evalMap.eq_1] at h; cases h; exact ⟨‹_›, Nat.le_refl _, trivial⟩
+    · rw [doForms.eq_1] at h; cases h; exact post_refl ‹_› trivial
+    · unfold letBinds at h; cases h; exact post_refl ‹_› trivial
+    · unfold macroexpand at h; cases h; exact post_refl ‹_› trivial
+    · unfold apply at h; cases h; exact post_refl ‹_› trivial
+    · rw [mapLoop.eq_1] at h; cases h; exact ⟨‹_›, Nat.le_refl _, trivial⟩
+    · unfold updateIn at h; cases h; exact post_refl ‹_› trivial
+    · unfold update1 at h; cases h; exact post_refl ‹_› trivial
+    · unfold callBuiltin at h; cases h; exact post_refl ‹_› trivial
+  | succ F ih =>
+    exact ⟨eval_step ih, evalLoop_step ih, evalAst_step ih, evalList_step ih, evalMap_step ih,
+      doForms_step ih, letBinds_step ih, macroexpand_step ih, apply_step ih, mapLoop_step ih,
+      updateIn_step ih, update1_step ih, callBuiltin_step ih⟩
+
+
+/-! ### consequences: the scoping laws of C01 with `StateWF` of the start state as only hypothesis -/
+
+theorem initState_stateWF : StateWF initState := by
+  constructor
+  · decide
+  · intro i sc h o ho
+    cases i with
+    | zero => simp [initState] at h; subst h; cases ho
+    | succ i => simp [initState] at h
+  · intro i sc h
+    cases i with
+    | zero =>
+      simp [initState] at h; subst h
+      rw [kvsWF_iff]; intro kv hkv
+      simp only [List.mem_map] at hkv
+      obtain ⟨_, _, rfl⟩ := hkv; simp
+    | succ i => simp [initState] at h
+  · intro i v h; simp [initState] at h
+  · simp [initState]
+
+/-- `StateWF` contains the side condition `ScopesWF` of the C01 / C03 / C08 laws -/
+theorem stateWF_scopesWF {st : State} (h : StateWF st) : ScopesWF st := h.outer
+
+/-- … and the side condition `StoreWF` of the C12 laws (outer links refer to existing scopes) -/
+theorem stateWF_outer_lt_size {st : State} (h : StateWF st) (i : Nat) (sc : Scope)
+    (hsc : st.scopes[i]? = some sc) (o : Nat) (ho : sc.outer = some o) : o < st.scopes.size :=
+  Nat.lt_trans (h.outer i sc hsc o ho) (lt_of_getElem? hsc)
+
+/-- a form without closure objects (everything the reader produces) is well-formed in every store -/
+theorem valWF_of_closureFree {v : Val} (h : ValWF 0 v) (n : Nat) : ValWF n v := valWF_mono (Nat.zero_le n) v h
+
+theorem stateWF_tick {st : State} (h : StateWF st) : StateWF (tick st) := stateWF_congr h rfl rfl rfl
+
+theorem eval_post {F st env ast d r s} (hw : StateWF st) (he : env < st.scopes.size)
+    (hx : ValWF st.scopes.size ast) (h : eval F st env ast d = (r, s)) :
+    StateWF s ∧ st.scopes.size ≤ s.scopes.size ∧ ResWF s.scopes.size r := (inv F).eval hw he hx h
+
+/-- lookup from the scope of a call, without side condition on the store: the closure is a value of a
+    well-formed store -/
+theorem get_call_scope {st : State} (hw : StateWF st) {ps b : Val} {e : Nat} {mc : Bool} {p : Option Pos}
+    (hf : ValWF st.scopes.size (.fn ps b e mc p)) (data : List (String × Val)) (k : String) :
+    (st.newScope e data).1.get (st.newScope e data).2 k =
+      match alookup k data with
+      | some v => some v
+      | none => st.get e k :=
+  EvalLaws.get_newScope hw.outer ((valWF_fn ..).mp hf).2.2 data k
+
+section laws
+variable {F : Nat} {st : State} {env d : Nat} {pos : Option Pos}
+
+/-- `eval_symbol_outer` with the invariant as hypothesis -/
+theorem eval_symbol_outer_wf (hc : st.cancelAt = none) (hw : StateWF st) {sc : Scope} {k : String} {o : Nat}
+    (p : Option Pos) (hsc : st.scopes[env]? = some sc) (hk : alookup k sc.data = none) (ho : sc.outer = some o) :
+    evalLoop (F+2) st env (.sym k p) d = evalLoop (F+2) st o (.sym k p) d :=
+  EvalLaws.eval_symbol_outer hc hw.outer p hsc hk ho
+
+/-- … in any state a run from a well-formed store ends in -/
+theorem eval_symbol_outer_after_run {F0 : Nat} {st0 : State} {env0 d0 : Nat} {ast0 : Val} {r0 : Res Val}
+    (h0 : StateWF st0) (he0 : env0 < st0.scopes.size) (ha0 : ValWF st0.scopes.size ast0)
+    (hrun : eval F0 st0 env0 ast0 d0 = (r0, st)) (hc : st.cancelAt = none)
+    {sc : Scope} {k : String} {o : Nat}
+    (p : Option Pos) (hsc : st.scopes[env]? = some sc) (hk : alookup k sc.data = none) (ho : sc.outer = some o) :
+    evalLoop (F+2) st env (.sym k p) d = evalLoop (F+2) st o (.sym k p) d :=
+  eval_symbol_outer_wf hc (eval_post h0 he0 ha0 hrun).1 p hsc hk ho
+
+/-- … in particular after any program run on the harness environment: no hypothesis on the store left -/
+theorem eval_symbol_outer_from_init {F0 d0 : Nat} {prog : Val} {r0 : Res Val}
+    (hprog : ValWF 0 prog) (hrun : eval F0 initState 0 prog d0 = (r0, st))
+    {sc : Scope} {k : String} {o : Nat}
+    (p : Option Pos) (hsc : st.scopes[env]? = some sc) (hk : alookup k sc.data = none) (ho : sc.outer = some o) :
+    evalLoop (F+2) st env (.sym k p) d = evalLoop (F+2) st o (.sym k p) d := by
+  have hc : st.cancelAt = none := by
+    have := (cancelAt_preserved F0).eval hrun
+    unfold SameCancel at this; rw [this]; rfl
+  exact eval_symbol_outer_after_run initState_stateWF (by decide) (valWF_of_closureFree hprog _) hrun hc p hsc hk ho
+
+/-- a closure sees its DEFINING scope: when the head of a call evaluates to a closure — created anywhere,
+    any time before, in scope `fenv` — the body runs in a fresh scope in which the parameters win and
+    every other symbol is resolved through `fenv`'s chain (in the store of the call), not through the
+    caller's scope `env`; and the invariant holds again where the body starts -/
+theorem closure_sees_defining_scope (hw : StateWF st) (he : env < st.scopes.size)
+    {f : Val} {args : List Val} (hast : ValsWF st.scopes.size (f :: args))
+    (hc : st.cancelAt = none) (hs : st.stepper = none)
+    (hm : HeadNotMacro st env f) (hsf : a0sym f ∉ specialForms)
+    {params body : Val} {fenv : Nat} {m : Bool} {fp : Option Pos} {vs : List Val} {st1 : State}
+    {data : List (String × Val)}
+    (hargs : evalList (F+1) (tick st) env (f :: args) d = (.ok (.fn params body fenv m fp :: vs), st1))
+    (hbind : bindParams params vs = .ok data) :
+    evalLoop (F+2) st env (.list (f :: args) pos) d =
+        evalLoop (F+1) (st1.newScope fenv data).1 (st1.newScope fenv data).2 body d ∧
+    (∀ k, (st1.newScope fenv data).1.get (st1.newScope fenv data).2 k =
+        match alookup k data with
+        | some v => some v
+        | none => st1.get fenv k) ∧
+    StateWF (st1.newScope fenv data).1 ∧
+    (st1.newScope fenv data).2 < (st1.newScope fenv data).1.scopes.size ∧
+    ValWF (st1.newScope fenv data).1.scopes.size body := by
+  obtain ⟨w1, _, v1⟩ := (inv (F+1)).evalList (stateWF_tick hw) he hast hargs
+  simp only [resLWF_ok, valsWF_cons] at v1
+  obtain ⟨w2, e2, b2, _⟩ := call_scope_wf w1 v1.1 v1.2 hbind
+  exact ⟨EvalLaws.eval_apply_closure hc hs hm hsf hargs hbind, get_call_scope w1 v1.1 data, w2, e2, b2⟩
+
+/-- after any program run on the harness environment, every closure bound anywhere in the store sees
+    its defining scope when called: no hypothesis on the store -/
+theorem get_call_scope_from_init {F0 d0 : Nat} {prog : Val} {r0 : Res Val}
+    (hprog : ValWF 0 prog) (hrun : eval F0 initState 0 prog d0 = (r0, st))
+    {name : String} {ps b : Val} {e : Nat} {mc : Bool} {p : Option Pos}
+    (hg : st.get env name = some (.fn ps b e mc p)) (data : List (String × Val)) (k : String) :
+    (st.newScope e data).1.get (st.newScope e data).2 k =
+      match alookup k data with
+      | some v => some v
+      | none => st.get e k := by
+  have hw := (eval_post initState_stateWF (by decide) (valWF_of_closureFree hprog _) hrun).1
+  exact get_call_scope hw (stateWF_get hw hg) data k
+
+/-- … and so does a closure the program returns -/
+theorem get_call_scope_of_result {F0 d0 : Nat} {prog : Val} {ps b : Val} {e : Nat} {mc : Bool} {p : Option Pos}
+    (hprog : ValWF 0 prog) (hrun : eval F0 initState 0 prog d0 = (.ok (.fn ps b e mc p), st))
+    (data : List (String × Val)) (k : String) :
+    (st.newScope e data).1.get (st.newScope e data).2 k =
+      match alookup k data with
+      | some v => some v
+      | none => st.get e k := by
+  obtain ⟨hw, _, hv⟩ := eval_post initState_stateWF (by decide) (valWF_of_closureFree hprog _) hrun
+  exact get_call_scope (mc := mc) (p := p) hw hv data k
+
+end laws
+
 
 end Proofs.EvalStoreWF
 end LispModel
